@@ -187,7 +187,7 @@ fn grid(v: i32) -> f32 {
     v as f32 / 256.0
 }
 
-fn rigid_case() -> impl Strategy<Value = RigidCase> {
+pub fn rigid_case() -> impl Strategy<Value = RigidCase> {
     let bx = || {
         (-16384i32..16384, -16384i32..16384, angle_any(), 256i32..16384, 256i32..16384)
             .prop_map(|(x, y, ang, w, h)| UB::new(grid(x), grid(y), ang, grid(w) / grid(h), grid(h)))
@@ -364,7 +364,7 @@ pub fn check_history(c: &HistoryCase) -> CaseResult {
     Ok(CaseOk::new(stale_possible && ref_i > tol).label_if(stale_possible, "vertices_generated_before_edit"))
 }
 
-fn history_case() -> impl Strategy<Value = HistoryCase> {
+pub fn history_case() -> impl Strategy<Value = HistoryCase> {
     let edit = || {
         prop_oneof![
             3 => Just(BoxEdit::GenVertices),
